@@ -315,6 +315,9 @@ func (s *Sched) grand(n int) int {
 
 var cur atomic.Pointer[Sched]
 
+// debugEnabled (VSIM_ENABLED=1) adds the enabled set to every step's log line.
+var debugEnabled = os.Getenv("VSIM_ENABLED") != ""
+
 // Active reports whether a scheduler is installed.
 //
 //go:norace
@@ -767,6 +770,16 @@ func (s *Sched) Run(root func()) {
 			b = strconv.AppendInt(b, int64(pick.ID), 10)
 			b = append(b, ' ')
 			b = append(b, pick.Site...)
+			if debugEnabled {
+				b = append(b, " en="...)
+				for _, e := range enabled {
+					b = strconv.AppendInt(b, int64(e.ID), 10)
+					if e.held > 0 {
+						b = append(b, 'h')
+					}
+					b = append(b, ',')
+				}
+			}
 			s.lineBuf = b
 			s.logLine(string(b))
 			s.unlock()
